@@ -4,6 +4,8 @@ from contracts import core as K
 
 from contracts import wrappers as W
 from contracts import formulas as F
+from contracts import formulas as F_DEP
+from contracts import core as K_DEP
 ID = "C03"
 LEVEL = "proof"
 TRUSTED = [
@@ -21,14 +23,15 @@ EXPLANATION = ("Deductive: _calculate_scattering, Neutron.scattering_by_waveleng
 
 def units(tier):
     return (([N.U_CALC, N.U_SBW_PLAIN, N.U_SBW_TABLE, N.L_SUM_POSITIVE, N.U_NS_WAVELENGTH, N.U_NS_ENERGY, N.U_NS_DEFAULT,
-            N.U_NSCAT, N.U_NSLD, N.L_ELEMENT_VS_COMPOUND, K.L_REGISTRATION]) + [W.U_NSF_NEUTRON_SLD, W.U_PKG[3], W.U_PKG[4], W.U_FROM_ATOMS[0]]) + F.U_FORMULA_OF_FORMULA + F.U_INIT
+            N.U_NSCAT, N.U_NSLD, N.L_ELEMENT_VS_COMPOUND, K.L_REGISTRATION]) + [W.U_NSF_NEUTRON_SLD, W.U_PKG[3], W.U_PKG[4], W.U_FROM_ATOMS[0]]) + F.U_FORMULA_OF_FORMULA + F.U_INIT + ([K_DEP.L_ATOM_IDENTITY] + [F_DEP.U_COUNT_ATOMS, F_DEP.U_ATOMS])
 
 
 def runner_tasks(tier):
     return [{"module": "c03", "task": "sample", "kind": "bounded", "clause": "all outputs vs documented equations, in floats"},
             {"module": "c07", "task": "energy_tables", "kind": "eval", "clause": "energy-dependent tables: nodes, clamping, interpolation axis"},
             {"module": "c09", "task": "steps", "name": "first-touch steps", "kind": "eval", "arg": {"groups": ["neutron"]}, "clause": "every first touch of the neutron data (element, isotope, ion, calculators) serves the canonical data", "timeout": 1500},
-            {"module": "stateful", "task": "C03", "name": "stateful C03", "kind": "bounded", "clause": "wavelength / energy in every numeric type and array layout: shape, entry-wise equality with the scalar call, argument untouched; compounds that print alike are computed from their own atoms"}]
+            {"module": "stateful", "task": "C03", "name": "stateful C03", "kind": "bounded", "clause": "wavelength / energy in every numeric type and array layout: shape, entry-wise equality with the scalar call, argument untouched; compounds that print alike are computed from their own atoms"},
+            {"module": "independence", "task": "observations", "name": "independence", "kind": "bounded", "arg": {"tags": ["C03"]}, "clause": "fixed observations give the same value as the first use of the library in a fresh interpreter, in a warmed-up interpreter (twice) and in reverse order, and have their documented value", "timeout": 900}]
 
 
 REPLAY = {'module': 'c03', 'task': 'replay'}
